@@ -30,8 +30,9 @@ prog, level, timing, inputs = %(prog)r, %(level)r, %(timing)r, %(inputs)r
 img = assemble(PROGS[prog])
 text = [sec for sec in img.get_sections() if sec.name == '.text'][0]
 words = [w[0] for w in struct.iter_unpack('<I', bytes(text.data))]
-alts = ISA.run(ISA.IntOps(), text.addr, words, {}, inputs)
-conds, outs, mem, steps = alts[0]
+alts = ISA.run(ISA.IntOps(), text.addr, words, {}, inputs, max_steps=2000)
+conds, outs, mem, steps, ninp = alts[0]
+inputs_all = inputs; inputs = inputs[:ninp]
 cls = {'FL': ProcFL, 'CL': ProcCL, 'RTL': ProcRTL}[level]
 th = TestHarness(cls, src_delay=timing[0], sink_delay=timing[1], mem_latency=timing[2])
 th.elaborate(); th.load(img)
@@ -83,21 +84,26 @@ def item_proc(it):
   import examples.ex03_proc.ProcFL as PFL, examples.ex03_proc.ProcCL as PCL
   core.install(PFL.__dict__); core.install(PCL.__dict__)
   prog, level, timing = it['prog'], it['level'], tuple(it['timing'])
-  name = f"proc/{level}/{prog}/src{timing[0]}-sink{timing[1]}-lat{timing[2]}"
+  name = f"proc/{level}/{prog}/src{timing[0]}-sink{timing[1]}-lat{timing[2]}" + ('/stalls' if it.get('stalls') else '')
   res = Result(name)
   img = assemble(PROGS[prog])
   text = [sec for sec in img.get_sections() if sec.name == '.text'][0]
   words = [w[0] for w in struct.iter_unpack('<I', bytes(text.data))]
   nin = sum(1 for sec in img.get_sections() if sec.name == '.mngr2proc' for _ in struct.iter_unpack('<I', bytes(sec.data)))
   ins = [z3.BitVec(f'in{i}', 32) for i in range(nin)]
-  alts = ISA.run(ISA.Z3Ops(), text.addr, words, {}, ins)
+  alts = ISA.run(ISA.Z3Ops(), text.addr, words, {}, ins, max_steps=2000)
   cls = {'FL': ProcFL, 'CL': ProcCL, 'RTL': ProcRTL}[level]
-  maxcyc = 60 + 40 * max(st for _, _, _, st in alts) * (1 + timing[2]) // 2
-  for ai, (conds, outs, mem, steps) in enumerate(alts):
+  # bound on cycles per path: measured need is < 9% of 12x; 3x keeps a > 3-fold margin and makes a run-away processor cheap to report
+  maxcyc = 60 + 3 * max(a[3] for a in alts) * (1 + timing[2] + (timing[0] + timing[1]) // 2)
+  mx = [0]
+  for ai, (conds, outs, mem, steps, ninp) in enumerate(alts):
     def body():
-      th = TestHarness(cls, src_delay=timing[0], sink_delay=timing[1], mem_latency=timing[2])
+      th = TestHarness(cls, src_delay=timing[0], sink_delay=timing[1], mem_latency=timing[2], mem_stall_prob=0.5 if it.get('stalls') else 0)
       th.elaborate(); th.load(img)
-      th.src.msgs.clear(); th.src.msgs.extend(sp.bv_bits(32, v) for v in ins)
+      if it.get('stalls'):
+        from checks.c18 import SymStall
+        for i, st in enumerate(th.mem.req_stalls): st.stall_rgen = SymStall(i, budget=1)      # every placement of one stall per memory port
+      th.src.msgs.clear(); th.src.msgs.extend(sp.bv_bits(32, v) for v in ins[:ninp])      # exactly the messages the ISA consumes on this alternative
       del th.sink.msgs[:]
       th.sink.msgs += [sp.bv_bits(32, z3.simplify(o)) if not z3.is_bv_value(z3.simplify(o)) else Bits(32, z3.simplify(o).as_long()) for o in outs]
       th.mem.mem.mem = SymByteArray(th.mem.mem.mem)
@@ -131,9 +137,10 @@ def item_proc(it):
         elif r == 'sat': viol(f"final memory word at {a:#x} differs from the ISA interpreter", [core.ubv(got, 32) != v]); ok = False; break
         else: rec['inconclusive'].append("memory: solver unknown"); ok = False
       if ok: rec['discharged'] += 1
+      rec['cycles'] = n
       rec['sample'] = f"{name}: ISA alternative {ai} ({len(conds)} branch/address conditions), {n} cycles, {len(outs)} proc2mngr values checked by the real sink"
       return rec
-    fx = ForkExplorer(base_pc=conds, leaf=leaf, max_paths=400)
+    fx = ForkExplorer(base_pc=conds, leaf=leaf, max_paths=4000, timeout_s=it.get('budget_s', 400))
     for r in fx.run(body):
       if 'error' in r: res['inconclusive'].append(r['error']); continue
       res['states'] += 1; res['transitions'] += r['decisions']
@@ -141,9 +148,10 @@ def item_proc(it):
       res['inconclusive'] += r['inconclusive']
       if r['violations'] and len(res['violations']) < 2: res['violations'] += r['violations']
       if not res['samples'] and 'sample' in r: res['samples'].append(r['sample'])
+      mx[0] = max(mx[0], r.get('cycles', 0))
   res['distinct'] = [f"{name}#{i}" for i in range(res['discharged'])]
   res['twins_expected'] = 0
-  res['note'] = f"{len(alts)} ISA alternatives, {res['states']} implementation paths"
+  res['note'] = f"{len(alts)} ISA alternatives, {res['states']} implementation paths, max {mx[0]} cycles (bound {maxcyc})"
   return res.r
 
 
@@ -169,13 +177,17 @@ def main():
       for i, t in enumerate(tms):
         if tier == 'quick' and lv != 'RTL' and i == 2: continue
         items.append(dict(kind='proc', name=f"{lv}/{p}/{t}", prog=p, level=lv, timing=list(t)))
+  if tier == 'thorough':       # one symbolic stall per memory port at every possible position (RTL: ~2000 paths per program)
+    for p in ['adj_csrw_csrw', 'store_load', 'adj_lw', 'csrw_then_branch', 'back_loop']:
+      for lv in ('FL', 'CL') + (('RTL',) if p == 'adj_csrw_csrw' else ()):
+        items.append(dict(kind='proc', name=f"{lv}/{p}/stalls", prog=p, level=lv, timing=[0, 1, 1], stalls=True))
   items.sort(key=lambda it: 0 if it.get('level') == 'RTL' else 1)
   for it, r in pmap(dispatch, items, item_timeout=1500 if tier == 'quick' else 4000):
     chk.absorb(it, r)
   chk.bounds = dict(programs=list(PROGS), timings=[list(t) for t in tms], inputs='every mngr2proc value a symbolic 32-bit word', memory_window='0x2000..0x200f via program-internal masking',
                     checksum='all 8 x 16 input bits symbolic')
   chk.outside = ['programs outside the skeleton set (no claim "for every TinyRV0 program")', 'self-modifying code', 'xcel instructions',
-                 'memory stall probability > 0 (C18 covers the memory under symbolic stalls)']
+                 'more than one memory stall per port (one stall per port at every possible position is explored for selected programs)']
   chk.assumptions = ['program text is assembled by the repo assembler; the interpreter decodes the encoded words per tinyrv0-isa.md',
                      'bytearray behind MagicMemoryFL replaced by SymByteArray (symbolic addresses are concretised by forking)']
   chk.finish(rule="per (level, program, timing): one fork-mode exploration per ISA alternative (branch outcomes / addresses); the real TestSinkCL comparison is the assertion; "
